@@ -44,17 +44,23 @@ func (ex *Exec) splitGoal(g *Term, hyps []*Term, out *[]subgoal) {
 				ex.splitGoal(g.Args[2], h2, out)
 				return
 			}
-		case "streq":
-			// expose the quantifier of content equality so it is skolemised
-			a, b := g.Args[0], g.Args[1]
-			*out = append(*out, subgoal{hyps, Eq(SLen(a), SLen(b))})
-			i := ex.D.Fresh("sk.i", SInt)
-			h2 := append(append([]*Term{}, hyps...), Le(IntLit(0), i), Lt(i, SLen(a)))
-			*out = append(*out, subgoal{h2, Eq(SAt(a, i), SAt(b, i))})
-			return
 		}
 	}
 	*out = append(*out, subgoal{hyps, g})
+}
+
+// altGoals: a content-equality goal streq(a,b) that the solver cannot get
+// from identities (sid equalities) is proved from its definition instead:
+// equal lengths, and equal bytes at a skolem position.
+func (ex *Exec) altGoals(sg subgoal) []subgoal {
+	g := sg.goal
+	if g.IsSym || g.Op != "streq" {
+		return nil
+	}
+	a, b := g.Args[0], g.Args[1]
+	i := ex.D.Fresh("sk.i", SInt)
+	h2 := append(append([]*Term{}, sg.hyps...), Le(IntLit(0), i), Lt(i, SLen(a)))
+	return []subgoal{{sg.hyps, Eq(SLen(a), SLen(b))}, {h2, Eq(SAt(a, i), SAt(b, i))}}
 }
 
 // engineAxioms: axioms for the engine-level uninterpreted functions.
@@ -71,7 +77,7 @@ func (ex *Exec) engineAxioms(used map[string]bool) string {
 `)
 	}
 	if used["sid"] {
-		sb.WriteString(`(assert (forall ((a Str) (b Str)) (! (= (= (sid a) (sid b)) (streq a b)) :pattern ((sid a) (sid b)))))
+		sb.WriteString(`(assert (forall ((a Str) (b Str)) (! (= (= (sid a) (sid b)) (streqdef a b)) :pattern ((sid a) (sid b)))))
 `)
 	}
 	if used["card"] {
@@ -198,7 +204,7 @@ func (ex *Exec) buildQueryMode(o *Obligation, sg subgoal, exclude string, values
 		t.Walk(func(x *Term) {
 			if x.IsSym {
 				used[x.Op] = true
-			} else if x.Op == "sid" {
+			} else if x.Op == "sid" || x.Op == "streq" {
 				used["sid"] = true
 			}
 		})
@@ -221,7 +227,7 @@ func (ex *Exec) buildQueryMode(o *Obligation, sg subgoal, exclude string, values
 		}
 	}
 	focus := append(append([]*Term{}, sg.hyps...), neg)
-	insts := preInstantiate(append(append([]*Term{}, asserts...), extra...), focus)
+	insts := preInstantiate(ex.D, append(append([]*Term{}, asserts...), extra...), focus)
 	var instDecl strings.Builder
 	ex.D.EmitFor(&instDecl, insts)
 	// only declarations not emitted yet
